@@ -136,12 +136,13 @@ UNITS = [
          checks=[Check('rgb_to_hsv', 'h_rgb_to_hsv', engine='D', flags=FL, timeout=300, inputs=('s.red', 's.green', 's.blue')),
                  Check('hsv_to_rgb', 'h_hsv_to_rgb', engine='D', flags=FL, timeout=300, inputs=('s.hue', 's.saturation', 's.value')),
                  Check('rgb_to_hsl', 'h_rgb_to_hsl', engine='D', flags=FL, timeout=300, inputs=('s.red', 's.green', 's.blue')),
-                 Check('hsl_to_rgb', 'h_hsl_to_rgb', engine='D', flags=FL, timeout=300, inputs=('s.hue', 's.saturation', 's.lightness'), tier='thorough'),
+                 # h_hsl_to_rgb (hsl -> rgb defined and in [0,1] for every float input) times out on SAT, cvc5 and z3 (300-400 s): not registered, listed not covered
                  Check('hue_periodic_hsv', 'h_hue_periodic', engine='D', flags=FL + ['--cvc5'], timeout=300, inputs=('a.saturation', 'a.value')),
-                 Check('hue_periodic_hsl', 'h_hue_periodic_hsl', engine='D', flags=FL, timeout=900, tier='thorough')],
+                 Check('hue_periodic_hsl', 'h_hue_periodic_hsl', engine='D', flags=FL + ['--cvc5'], timeout=400, tier='thorough')],
          preconditions=['float channels in [0,1] (no NaN)'],
          assumed=['float32_t (scoped_channel_value<float>) lowered to float; float->float channel_convert is the identity', 'CBMC floor() model']),
     Unit('rgb8_roundtrip', 'C18', '/* complete native enumeration, no extracted body */\n',
          checks=[Check('all_rgb8', 'none', engine='N', native=NATIVE, timeout=1800)]),
 ]
-META = dict(not_covered=['xyz, lab, ycbcr, cmyka (powf / cbrt: no usable model)', 'gray_alpha -> rgba, rgb_to_luminance toolbox converter (not built)'])
+META = dict(not_covered=['hsl -> rgb defined and in range for ARBITRARY float inputs (harness h_hsl_to_rgb: 300-400 s time-outs on SAT, cvc5, z3; not registered) - covered for the hsl values of all 2^24 rgb8 pixels by the native enumeration',
+                         'xyz, lab, ycbcr, cmyka (powf / cbrt: no usable model)', 'gray_alpha -> rgba, rgb_to_luminance toolbox converter (not built)'])
